@@ -132,6 +132,21 @@ CLAIMED["C02"] = ("Proof (deductive, every reply, every UE state, every UE count
   "Found and repaired under this check: the session identity was the last four SUPI digits, truncated differently in NAS and NGAP (fix commit in /repo).",
   "DESIGN.md §I.2 C02")
 
+CLAIMED["C08"] = ("Proof (deductive, all field values, all IE lengths within the capacity of the IE, all contents) per message type, for 44 of the 45 message types (29 5GMM + 16 5GSM less SECURITY PROTECTED 5GS NAS MESSAGE, which the emulator and NASEncode do not use): "
+  "Decode(Encode(m)) = m field by field and Encode(Decode(Encode(m))) = Encode(m) for (a) no optional IE, (b) each optional IE alone (160 pairs), (c) all optional IEs together, (d) all optional IEs arriving in the reverse of the canonical order (lengths fixed at 2 octets, contents symbolic); "
+  "thorough tier: every subset of the optional IEs for the messages with at most 10 of them. One level up: each message wrapped in a nas.Message with its message type survives PlainNasEncode / PlainNasDecode (the type dispatch of both directions), unknown 5GMM / 5GSM message types and unknown protocol discriminators are errors in both directions. "
+  "The lemmas are generated on every run from the type declarations of the tree under verification (IE value types, message structs, IEI constants) — nothing is taken from the bodies of Encode/Decode — and executed symbolically on the real Encode/Decode functions.",
+  "Assumed: bytes.Buffer and encoding/binary.Read/Write behave as their documentation says for fixed-size values and byte slices (model in cmd/govc/models_buf.go: append-only writes; a read of n octets succeeds iff n octets are unread, otherwise consumes the rest and leaves the destination untouched). "
+  "Well-formed = what the library's constructors establish (IEI of an optional IE = the message's constant, Len = length of Buffer or at most the capacity of Octet, unused octets zero). "
+  "NOT decided: subsets of optional IEs for the 6 messages with more than 10 of them beyond none / each alone / all / reversed (the decode loop handles each IE in its own switch case writing only its own field, which is why those are representative, but that independence is not itself proved); orders other than canonical and reversed; malformed input (a length beyond the capacity of a fixed array panics in the decoder: outside this property).",
+  "DESIGN.md §I.2 C08")
+CLAIMED["C09"] = ("Proof (deductive, all field values and contents) against a transcription of the message tables of TS 24.501 clauses 8.2 / 8.3 and the message types of tables 9.7.1 / 9.7.2 (cmd/govc/nas24501_tables.go: per message the mandatory fields with format V n / LV / LV-E in order, and per optional IE the IEI and the format half-octet TV / TV n / TLV / TLV-E): "
+  "for each of 44 message types the encoding of the mandatory part is exactly header (EPD, security header type or PDU session id + PTI, message type) followed by the mandatory fields in table order with the tabulated widths; for each of the 160 (message, optional IE) pairs the IE appears after the mandatory part with the tabulated IEI, a length field of the tabulated width carrying the number of value octets, and the tabulated size for fixed formats; "
+  "structural obligations (go/types): every MsgType constant and every <Message><IE>Type constant has the tabulated value, every optional IE of a message struct is in the table of the message and vice versa, every IE value type can carry its tabulated format. Two genuine defects found and repaired in /repo (Requested QoS rules with a one-octet length, Last visited registered TAI with seven value octets).",
+  "The tables are transcribed from the standard from memory (no copy of TS 24.501 is available offline); every row agreed with the library except the two repaired defects, which are corroborated inside the library itself (AuthorizedQosRules carries the same IE with two length octets; the accessors of LastVisitedRegisteredTAI use six octets). Optional IEs of the standard that the library does not implement are not listed. "
+  "NOT decided: the contents of the IE values (bit fields inside an IE) and the messages as built by nasTestpacket's constructors; SECURITY PROTECTED 5GS NAS MESSAGE. Same assumed models of bytes.Buffer / encoding/binary as C08.",
+  "DESIGN.md §I.2 C09")
+
 PENDING = {
 }
 
